@@ -42,14 +42,21 @@ def write_input(path, seed):
     import numpy as np
     rs = np.random.RandomState(100 + seed)
     rows = ["mutation_id\tsample_id\tref_counts\talt_counts\tmajor_cn\tminor_cn\tnormal_cn"]
-    ccf = {"a": (0.9, 0.8), "b": (0.9, 0.8), "c": (0.4, 0.1), "d": (0.4, 0.1), "e": (0.05, 0.9), "f": (0.7, 0.02), "g": (0.2, 0.5)}
+    # one clonal cluster and four mutually exclusive subclones (siblings: a clone with four children is the well supported
+    # shape), plus two noisy mutations that tend to become outliers
+    ccf = {"a": (0.95, 0.95), "b": (0.95, 0.95), "c": (0.25, 0.02), "d": (0.02, 0.25), "e": (0.2, 0.2), "f": (0.22, 0.3),
+           "g": (0.6, 0.01), "h": (0.01, 0.7), "i": (0.25, 0.02), "j": (0.2, 0.2)}
     for m, (c1, c2) in ccf.items():
         for s, c in (("T1", c1), ("T2", c2)):
-            depth = 60
+            depth = 400
             alt = int(round(depth * c / 2))
             rows.append("mut_%s\t%s\t%d\t%d\t1\t1\t2" % (m, s, depth - alt, alt))
     with open(path, "w") as fh:
         fh.write("\n".join(rows) + "\n")
+    # pre-clustering (integer cluster ids): a, b together; h, i together; the rest alone
+    cl = {"a": 0, "b": 0, "c": 1, "i": 1, "d": 2, "e": 3, "j": 3, "f": 4, "g": 5, "h": 6}
+    with open(path + ".clusters.tsv", "w") as fh:
+        fh.write("mutation_id\tcluster_id\n" + "".join("mut_%s\t%d\n" % (m, c) for m, c in cl.items()))
 
 
 def launch(label, workdir, in_file, seed, chains, hashseed, one_core=False, delays=None, extra=()):
@@ -65,7 +72,7 @@ def launch(label, workdir, in_file, seed, chains, hashseed, one_core=False, dela
         e.pop("PCV_CHAIN_DELAYS", None)
     e["PYTHONPATH"] = os.pathsep.join(pp)
     e["NUMBA_CACHE_DIR"] = os.path.join(env.BUILD_DIR, "numba_cache")
-    cmd = [sys.executable, "-c", "from phyclone.cli import main; main()", "run", "-i", in_file, "-o", out, "--seed", str(seed), "-n", "25",
+    cmd = [sys.executable, "-c", "from phyclone.cli import main; main()", "run", "-i", in_file, "-c", in_file + ".clusters.tsv", "-o", out, "--seed", str(seed), "-n", "40",
            "--num-chains", str(chains), "--outlier-prob", "0.3", "-s", "0.5", "--num-particles", "6", "--grid-size", "21", "--burnin", "2", "--print-freq", "1000"] + list(extra)
     if one_core and shutil.which("taskset"):
         cmd = ["taskset", "-c", "0"] + cmd
